@@ -96,7 +96,8 @@ struct Bus {
 		int idx = (int) nodes.size();
 		if (!addr.empty()) {
 			std::vector<uint8_t> pa(addr.begin(), addr.end() - 1);
-			n.parent = find(pa);
+			n.parent = -1;       // (the parent may be absent from the bus at the moment: present or not)
+			for (size_t i = 0; i < nodes.size(); i++) if (nodes[i].addr == pa) n.parent = (int) i;
 		}
 		nodes.push_back(n);
 		if (nodes[(size_t) idx].parent >= 0) nodes[(size_t) nodes[(size_t) idx].parent].children.push_back(idx);
@@ -119,7 +120,7 @@ struct Bus {
 	UpFrame &enqueue(UpFrame f, uint64_t delay_us, uint64_t byte_gap_us = 0, long split_at = -1, uint64_t split_gap_us = 0) {
 		f.id = ++frame_seq;
 		f.enq_step = sim::step(); f.enq_time = sim::now_us();
-		uint64_t t = sim::now_us() + delay_us;
+		uint64_t t = sim::grid_round(sim::now_us() + delay_us);
 		f.at.resize(f.bytes.size());
 		for (size_t i = 0; i < f.bytes.size(); i++) {
 			if ((long) i == split_at) t += split_gap_us;
@@ -167,8 +168,10 @@ struct Bus {
 		// the pause falls inside the frame (never before its first byte: frames of one node keep their order on the wire)
 		if (split_at >= 0 && !f.bytes.empty()) { split_at = split_at % (long) f.bytes.size(); if (split_at == 0) split_at = 1; fired["chunk"]++; }
 		if (node >= 0) {
-			uint64_t st = sim::now_us() + delay_us;
-			if (st <= nodes[(size_t) node].last_start_us) { st = nodes[(size_t) node].last_start_us + 1; delay_us = st - sim::now_us(); }
+			// (equal start times keep their order: enqueue() inserts behind frames that start at the same instant)
+			uint64_t st = sim::grid_round(sim::now_us() + delay_us);
+			if (st <= nodes[(size_t) node].last_start_us) st = sim::grid_round(nodes[(size_t) node].last_start_us + (sim::grid_round(3) > 3 ? 0 : 1));
+			delay_us = st - sim::now_us();
 			nodes[(size_t) node].last_start_us = st;
 		}
 		UpFrame copy = f;
